@@ -19,7 +19,6 @@ One path for every stream of real engine events (generated histories of real `Sc
 from __future__ import annotations
 
 import io
-import uuid
 from contextlib import redirect_stdout
 
 import requests
@@ -392,7 +391,7 @@ def judge_streams_g(chk, mechanism, items, engine=False):
         model = {"store": canon_store(ms["store"]), "total": ms["total"], "with_failures": ms["with_failures"],
                  "without_checks": ms["without_checks"], "exit_nonzero": m["exit"] != 0}
         um = getattr(ctx.statistic, "unique_failures_map", None)
-        if isinstance(um, dict):
+        if isinstance(um, dict) and all(isinstance(c, str) for c in um.values()):
             real["unique"] = sorted([T.fail(f, False), T.case(c, False)] for f, c in um.items())
             model["unique"] = sorted(ms["unique"])
         if real != model:
@@ -459,8 +458,10 @@ def judge_streams_g(chk, mechanism, items, engine=False):
             for f, e in first.items():
                 fo = T.fails[f]
                 msg = (fo.message or "").strip().splitlines()
-                need = [T.cases[e["case"]], *([msg[0]] if msg else []), T.samples[e["samples"][0]].splitlines()[0]]
+                need = [T.cases[e["case"]], *([msg[0]] if msg else [])]
                 missing = [s for s in need if s not in text]
+                if not any(T.samples[k].splitlines()[0] in text for k in e["samples"]):
+                    missing.append("the code sample of the case")
                 if missing:
                     chk.violation(SIG_RENDER, f"the FAILURES section rendered by display_failures does not show {missing} of "
                                   f"failure {type(fo).__name__}({fo.operation!r})", {**rep, "failure": f, "text": text[:4000]})
@@ -650,9 +651,9 @@ def execute_runs_g(chk, n):
 def run_all(chk, behaviour_streams):
     """every mechanism of the CLI reporting layer, one driver start"""
     run_batched(chk, [judge_streams_g(chk, "cli-context:behaviour-run", behaviour_streams, engine=True),
-                      history_runs_g(chk, chk.budget(120, 2500)),
-                      engine_phase_runs_g(chk, chk.budget(2, 25)),
-                      execute_runs_g(chk, chk.budget(50, 1000))])
+                      history_runs_g(chk, chk.budget(120, 1500)),
+                      engine_phase_runs_g(chk, chk.budget(2, 16)),
+                      execute_runs_g(chk, chk.budget(50, 600))])
     fatal_runs(chk)
 
 
